@@ -3,12 +3,13 @@ the parts of the code that are tables or closed expressions. Anything outside th
 becomes `ExtractionFailed "<why>"`, which makes exactly the bridge obligation that mentions it
 ill-typed. Output: build/bridge/Extracted.v"""
 import ast
+import os
 import re
 import sys
 from pathlib import Path
 
 REPO = Path('/repo')
-OUT = Path('/verif/build/bridge/Extracted.v')
+OUT = Path(os.environ.get('VERIF_ROOT', '/verif')) / 'build/bridge/Extracted.v'
 
 OST = {'PENDING': 'Pending', 'ASSIGNED': 'Assigned', 'RUNNING': 'Running',
        'SUSPENDING': 'Suspending', 'COMPLETED': 'Completed', 'FAILED': 'Failed'}
